@@ -52,3 +52,28 @@ Example C13_example :   (* good answer at 100 s; silences evaluated 4.999999999 
       mkps 106000000000 PReply 0 5000000000 None 5 2 ]
   = [PMNoReply; PMData 100000000000 77 5 1; PMNoReplyGrace; PMNoReply; PMPhcFail].
 Proof. vm_compute. reflexivity. Qed.
+
+(* the configured reference id (value parser of --phc-ref-id): a four-character ASCII name is the
+   big-endian number of its bytes, two different four-character names never give the same id, and
+   the result is a u32; a shorter name is right-aligned (so "PHC" is 0x00504843, not chronyd's
+   left-aligned 0x50484300: such a name never matches - an observation, not a finding) *)
+From CB Require Import Cli.
+
+Theorem C13_refid_of_four_chars : forall a b c d, is_ascii a = true -> is_ascii b = true -> is_ascii c = true -> is_ascii d = true ->
+  refid_of [a; b; c; d] = Some (a * 16777216 + b * 65536 + c * 256 + d).
+Proof. exact refid_of_four. Qed.
+
+Theorem C13_refid_of_injective_on_four_chars : forall a b c d a' b' c' d',
+  is_ascii a = true -> is_ascii b = true -> is_ascii c = true -> is_ascii d = true ->
+  is_ascii a' = true -> is_ascii b' = true -> is_ascii c' = true -> is_ascii d' = true ->
+  refid_of [a; b; c; d] = refid_of [a'; b'; c'; d'] -> [a; b; c; d] = [a'; b'; c'; d'].
+Proof. exact refid_of_four_injective. Qed.
+
+Theorem C13_refid_is_u32 : forall bs v, refid_of bs = Some v -> 0 <= v < 4294967296.
+Proof. exact refid_of_range. Qed.
+
+Example C13_refid_examples :
+  refid_of [80; 72; 67; 48] = Some 1346913072 (* "PHC0" = 0x50484330 *) /\
+  refid_of [80; 72; 67] = Some 5261379 (* "PHC" = 0x00504843 *) /\
+  refid_of [80; 72; 67; 48; 48] = None /\ refid_of [80; 200; 67; 48] = None /\ refid_of [] = Some 0.
+Proof. repeat split; reflexivity. Qed.
